@@ -102,6 +102,8 @@ func (p *Prog) describe(ins ssa.Instruction) string {
 
 func nodeString(n ast.Node) string {
 	switch n := n.(type) {
+	case *ast.KeyValueExpr:
+		return shorten(types.ExprString(n.Key) + ": " + types.ExprString(n.Value))
 	case ast.Expr:
 		return shorten(types.ExprString(n))
 	case *ast.AssignStmt:
@@ -119,8 +121,6 @@ func nodeString(n ast.Node) string {
 		return "range " + shorten(types.ExprString(n.X))
 	case *ast.TypeSwitchStmt:
 		return "type-switch"
-	case *ast.KeyValueExpr:
-		return shorten(types.ExprString(n.Key) + ": " + types.ExprString(n.Value))
 	}
 	return fmt.Sprintf("%T", n)
 }
